@@ -37,7 +37,8 @@ def raised_types(repo: Repo, fn: ast.FunctionDef) -> List[Tuple[ast.Raise, str]]
             if e is None:
                 out.append((st, "reraise"))
             elif isinstance(e, ast.Call):
-                out.append((st, call_name(e).split(".")[-1]))
+                nm = call_name(e).split(".")[-1]
+                out.append((st, _returned_class(repo, fn, nm) or nm))
             elif isinstance(e, ast.Name) and e.id in local_new:
                 out.append((st, local_new[e.id]))
             elif isinstance(e, ast.Name) and e.id in params:
@@ -45,6 +46,32 @@ def raised_types(repo: Repo, fn: ast.FunctionDef) -> List[Tuple[ast.Raise, str]]
             else:
                 out.append((st, norm(e).split(".")[-1]))
     return out
+
+
+def _returned_class(repo: Repo, fn: ast.FunctionDef, fname: str) -> Optional[str]:
+    """If `fname` is a module-level helper (in a hand-written module) whose every return yields an object constructed from one
+    class, that class."""
+    if repo.has_class(fname):
+        return None
+    for mod in HAND_WRITTEN:
+        for q, f in repo.functions(mod):
+            if q == fname:
+                new = {}
+                for st in stmts_in(f):
+                    if isinstance(st, ast.Assign) and isinstance(st.value, ast.Call) and isinstance(st.targets[0], ast.Name):
+                        new[st.targets[0].id] = call_name(st.value).split(".")[-1]
+                classes = set()
+                for st in stmts_in(f):
+                    if isinstance(st, ast.Return) and st.value is not None:
+                        if isinstance(st.value, ast.Call):
+                            classes.add(call_name(st.value).split(".")[-1])
+                        elif isinstance(st.value, ast.Name) and st.value.id in new:
+                            classes.add(new[st.value.id])
+                        else:
+                            classes.add("?")
+                if len(classes) == 1 and "?" not in classes:
+                    return classes.pop()
+    return None
 
 
 def is_recognition(repo: Repo, cname: str) -> Optional[bool]:
@@ -62,6 +89,25 @@ def is_recognition(repo: Repo, cname: str) -> Optional[bool]:
     return None
 
 
+def linear_statements(repo: Repo, cls: str, methods=("__init__", "process"), depth: int = 3):
+    """Statements of the given methods in execution order, descending into calls of private helpers of the same class
+    (`self._x()`); yields (stmt, method name)."""
+    ci = repo.cls(cls)
+
+    def walk(fn, d, seen):
+        for st in stmts_in(fn):
+            yield st, fn.name
+            if isinstance(st, ast.Expr) and isinstance(st.value, ast.Call) and isinstance(st.value.func, ast.Attribute) \
+                    and isinstance(st.value.func.value, ast.Name) and st.value.func.value.id == "self":
+                r = repo.find_method(cls, st.value.func.attr)
+                if r is not None and d < depth and st.value.func.attr not in seen and st.value.func.attr not in methods:
+                    yield from walk(r[1], d + 1, seen | {st.value.func.attr})
+    for m in methods:
+        fn = ci.methods.get(m)
+        if fn is not None:
+            yield from walk(fn, 0, {m})
+
+
 def listener_attachments(repo: Repo, doc_cls: str):
     """Statements `<self.X>.addErrorListener(<Cls>())` / removeErrorListeners in the
     Documenter class, in execution order (__init__ then process), with the role
@@ -72,11 +118,8 @@ def listener_attachments(repo: Repo, doc_cls: str):
     if not lex_attrs or not par_attrs:
         raise AnalysisError("anchor vanished: Documenter does not keep its lexer/parser in attributes")
     events = []
-    for mname in ("__init__", "process"):
-        fn = ci.methods.get(mname)
-        if fn is None:
-            continue
-        for st in stmts_in(fn):
+    for st, mname in linear_statements(repo, doc_cls):
+        if True:
             if isinstance(st, ast.Expr) and isinstance(st.value, ast.Call) and isinstance(st.value.func, ast.Attribute):
                 c = st.value
                 recv = c.func.value
@@ -154,9 +197,18 @@ def has_error_count_gate(fn: ast.FunctionDef, par_attrs, entry_call: ast.Call, p
     if idx_entry is None:
         return None
     # the tree must not be consumed in the same statement as the parse
+    # locals holding the error count
+    count_locals = set()
+    for st in body:
+        if isinstance(st, ast.Assign) and isinstance(st.targets[0], ast.Name) and \
+                ("getNumberOfSyntaxErrors()" in norm(st.value) or "_syntaxErrors" in norm(st.value)):
+            count_locals.add(st.targets[0].id)
     for st in body[idx_entry + 1:]:
         if isinstance(st, ast.If):
             t = norm(st.test)
+            for name in count_locals:
+                if any(isinstance(n, ast.Name) and n.id == name for n in ast.walk(st.test)):
+                    t += " getNumberOfSyntaxErrors()"
             if ("getNumberOfSyntaxErrors()" in t or "_syntaxErrors" in t) and all_paths_raise(st.body):
                 # polarity: truth must mean "errors present"
                 test = st.test
@@ -245,11 +297,8 @@ def run(rep: Report, repo: Repo, tier: str) -> None:
     stream_attrs = roles.self_attr_assigned_from(repo.cls(doc_cls).node, ("CommonTokenStream", "BufferedTokenStream"))
     watched = set(lex_attrs) | set(par_attrs) | set(stream_attrs)
     seq = []
-    for mname in ("__init__", "process"):
-        fn = repo.cls(doc_cls).methods.get(mname)
-        if fn is None:
-            continue
-        for st in stmts_in(fn):
+    for st, mname in linear_statements(repo, doc_cls):
+        if True:
             for c in calls_in(st) if not isinstance(st, (ast.If, ast.For, ast.While, ast.Try, ast.With)) else \
                     [x for x in ast.walk(st.test if isinstance(st, (ast.If, ast.While)) else (st.iter if isinstance(st, ast.For) else ast.Pass()))
                      if isinstance(x, ast.Call)]:
